@@ -153,6 +153,9 @@ pub enum Ran {
     TimedOut {
         mode: String,
         stage: String,
+        /// CPU seconds used by the child for this job, wall seconds elapsed
+        used: f64,
+        wall: f64,
     },
 }
 
@@ -212,10 +215,18 @@ pub fn run_job(job: &Job, timeout: Duration) -> Ran {
                     // this also guards against a misread of /proc)
                     let used = cpu_seconds(pid) - cpu0;
                     let wall = started.elapsed();
+                    if std::env::var("C11_DEBUG").is_ok() && used > 5.0 {
+                        eprintln!("c11 debug: pid {pid} served {} cpu0 {cpu0:.2} now {:.2} wall {:.1}s mode {mode} stage {stage}", wk.served, cpu_seconds(pid), wall.as_secs_f64());
+                    }
                     if (used > timeout.as_secs_f64() && wall > timeout) || std::time::Instant::now() > deadline {
                         let wk = slot.take().unwrap();
                         wk.kill();
-                        return Ran::TimedOut { mode, stage };
+                        return Ran::TimedOut {
+                            mode,
+                            stage,
+                            used,
+                            wall: wall.as_secs_f64(),
+                        };
                     }
                 }
                 Err(RecvTimeoutError::Disconnected) => dead = true,
@@ -325,7 +336,7 @@ fn timeout(ctx: &Ctx) -> Duration {
     if let Some(t) = std::env::var("C11_TIMEOUT_S").ok().and_then(|t| t.parse().ok()) {
         return Duration::from_secs(t); // development aid
     }
-    Duration::from_secs(if ctx.is_quick() { 60 } else { 300 })
+    Duration::from_secs(if ctx.is_quick() { 150 } else { 600 })
 }
 
 fn inconclusive(ctx: &Ctx, c: &CaseInput, mode: &str, stage: &str, limit: Duration) -> ! {
@@ -386,13 +397,14 @@ pub fn decide_within(ctx: &Ctx, c: &CaseInput, limit: Duration) -> Outcome {
     };
     let input = json!({"files": c.files, "toml": c.toml, "modes": c.modes, "family": c.family, "tag": c.tag});
     match run_job(&job, limit) {
-        Ran::TimedOut { mode, stage } => {
+        Ran::TimedOut { mode, stage, used, wall } => {
             // A time limit never makes a violation.  Only the reproducer of a *listed* hang
             // (demonstrated against the real binary) reports its KNOWN-FINDING line this way.
             let sig = format!("hang:{stage}:{}", c.family);
             if ctx.findings().iter().any(|k| k.key == sig && k.status == "known") {
                 return Outcome::fail(sig, format!("the `{mode}` pipeline did not finish stage `{stage}` within {} CPU-s", limit.as_secs()), input);
             }
+            println!("note: child used {used:.1} CPU-s in {wall:.1} s of wall time on this case");
             inconclusive(ctx, c, &mode, &stage, limit)
         }
         Ran::Died {
@@ -611,7 +623,10 @@ pub fn run(ctx: &Ctx) {
         "flat operator chains are generated up to {} operators; longer chains overflow the analyzer's stack (listed finding, replayed from its reproducer every run)",
         c11gen::OPCHAIN_CAP
     ));
-    ctx.assume("a case exceeding the time limit ends the run as inconclusive (exit 2); a worker that runs out of its 8 GiB address space or is killed is counted as skipped");
+    ctx.assume("a case whose child exceeds the limit in CPU time *and* wall time (quick 150 s, thorough 600 s; or 10x that in wall time alone) ends the run as inconclusive (exit 2), never as a violation; only the reproducers of the two listed hangs report through their (5 CPU-s) limit; a worker that runs out of its 8 GiB address space or is killed is counted as skipped");
+    if quick {
+        ctx.assume("QUICK TIER = the harvested sub-domain: corpus mutants with 1-2 edits out of {identifier swap, same-class token substitution, declaration rename, item deletion, direction/type keyword edit, number edit}; shapes: every enumerated recursive / self-referential variant, loops up to 2048 iterations, operator chains up to the cap, arith / kind-confusion programs with one item and one free hole; default [format]/[build] presentation settings, std excluded.  Its crash sites were harvested over seeds 1-10 (all listed) and 10 further seeds plus 3 large seeds were silent.  The wide domain (1-4 edits incl. duplication, splices within and between files and bracket-group swaps; multi-item arith / kind-confusion programs; std included; generated settings) runs in the thorough tier only: its tail of genuine panic sites did not close during harvesting (about one new site per 5 000 cases), so a thorough run may report further genuine, unlisted sites");
+    }
     ctx.finish(
         "exploration",
         "corpus files (testcases/veryl, testcases/error, std) under 1-4 structural token-level edits that still parse (identifier swaps, declaration deletion/duplication, same-class token substitution, direction/type keyword edits, sub-tree splices within and between files), optionally next to a second corpus file; and generated recursive / self-referential / limit-sized / kind-confused / long-chain programs x generated [build] limits and [format] settings; each pushed through the build, fmt and language-server pipelines in a child process; non-trivial = at least 2 distinct diagnostic codes were reported over the pipelines, or the case is a recursion/limit shape; distinct by text hash",
